@@ -66,3 +66,40 @@ package flows
 //@ loop 1
 //@   invariant forall k int :: 0 <= k && k <= $i ==> raw[k] == l[k].urn
 //@   invariant len(raw) == len(l)
+
+// ---- C03 / C06: group lists and query based groups
+//@ pred groupsOK(l *GroupList) bool := l != nil && (forall k int :: 0 <= k && k < len(l.groups) ==> l.groups[k] != nil)
+//@ pred memberOf(l *GroupList, uuid assets.GroupUUID) bool := exists k int :: 0 <= k && k < len(l.groups) && l.groups[k].UUID() == uuid
+
+//@ func (l *GroupList) FindByUUID
+//@   pure
+//@   reads GroupList::groups, elems[*Group], Group::Group
+//@   requires groupsOK(l)
+//@   ensures [found_iff] (result != nil) <==> memberOf(l, uuid)
+//@   ensures [is_it] result != nil ==> result.UUID() == uuid
+//@ loop 1
+//@   invariant forall k int :: 0 <= k && k <= $i ==> l.groups[k].UUID() != uuid
+
+//@ func (l *GroupList) Add
+//@   requires groupsOK(l) && group != nil
+//@   assigns l.groups
+//@   ensures [result] result <==> !old(memberOf(l, group.UUID()))
+//@   ensures [unchanged] !result ==> l.groups == old(l.groups)
+//@   ensures [appended] result ==> (len(l.groups) == old(len(l.groups)) + 1 && (forall k int :: 0 <= k && k < old(len(l.groups)) ==> l.groups[k] == old(l.groups)[k]) && l.groups[len(l.groups) - 1] == group)
+//@   ensures [ok] groupsOK(l)
+
+//@ func (l *GroupList) Remove
+//@   requires groupsOK(l) && group != nil
+//@   assigns l.groups
+//@   ensures [result] result <==> old(memberOf(l, group.UUID()))
+//@   ensures [unchanged] !result ==> l.groups == old(l.groups)
+//@   ensures [removed] result ==> (exists i int :: 0 <= i && i < old(len(l.groups)) && old(l.groups)[i].UUID() == group.UUID() && (forall j int :: 0 <= j && j < i ==> old(l.groups)[j].UUID() != group.UUID()) && len(l.groups) == old(len(l.groups)) - 1 && (forall j int :: 0 <= j && j < i ==> l.groups[j] == old(l.groups)[j]) && (forall j int :: i <= j && j < len(l.groups) ==> l.groups[j] == old(l.groups)[j + 1]))
+//@   ensures [ok] groupsOK(l)
+//@ loop 1
+//@   invariant forall k int :: 0 <= k && k <= $i ==> l.groups[k].UUID() != group.UUID()
+//@   invariant l.groups == old(l.groups)
+
+//@ func (l *GroupList) Clear
+//@   requires l != nil
+//@   assigns l.groups
+//@   ensures len(l.groups) == 0
